@@ -8,6 +8,9 @@ import DaskModel.Model.Groupby
 import DaskModel.Model.Join
 import DaskModel.Model.Csv
 import DaskModel.Model.CsvOptsIO
+import DaskModel.Model.MergeAsofIO
+import DaskModel.Model.AlignIO
+import DaskModel.Model.MergePlanIO
 open Dask
 
 /-- `(sdl (seq…) npartitions n)` / `(sdl (seq…) chunksize c)` ↦ `(ok (divisions…) (locations…))` | `(raised)` -/
@@ -165,6 +168,12 @@ def hLocSliceDivs : Handler := handler fun args =>
 def hPartitionsDivs : Handler := handler fun args =>
   match args with
   | [d, sel] => do pure (okOr ((Divs.partitionsDivs (← d.toNats?) (← sel.toNats?)).map SExp.ofNats))
+  | _ => none
+
+/-- `(pandas-div-locs (sorted index keys…) (divisions…))` ↦ locations of `FromPandasDivisions` -/
+def hPandasDivLocs : Handler := handler fun args =>
+  match args with
+  | [ks, b] => do pure (SExp.ofNats (Divs.pandasDivLocs (← ks.toNats?) (← b.toNats?)))
   | _ => none
 
 /-- `(concat-divs d1 d2)` ↦ `(mono (divisions…))` | `(not-mono)`: `Concat._divisions` of two frames with known divisions -/
@@ -387,10 +396,10 @@ def table : List (String × Handler) := [("sdl", hSdl), ("sdl-stats", hSdlStats)
   ("cum-filled", hCumFilled), ("cum-aligned", hCumAligned), ("tree-levels", hTreeLevels), ("csv-parts", hCsvParts), ("join", hJoin), ("hash-join", hHashJoin),
   ("stage-index", hStageIndex), ("simple-shuffle", hSimpleShuffle), ("task-shuffle", hTaskShuffle),
   ("layer-wiring", hLayerWiring), ("set-partitions-pre", hSetPartitionsPre),
-  ("truthful", hTruthful), ("locslice-divs", hLocSliceDivs), ("partitions-divs", hPartitionsDivs), ("concat-divs", hConcatDivs),
+  ("truthful", hTruthful), ("locslice-divs", hLocSliceDivs), ("partitions-divs", hPartitionsDivs), ("concat-divs", hConcatDivs), ("pandas-div-locs", hPandasDivLocs),
   ("tofewer-bounds", hToFewerBounds), ("split-positions", hSplitPositions), ("nsplits", hNsplits),
   ("lower-kind", hLowerKind), ("div-layer", hDivLayer), ("div-layer-ok", hDivLayerOK), ("repart-divs", hRepartDivs),
   ("tofewer", hToFewer), ("tomore", hToMore),
-  ("iter-chunks", hIterChunks), ("size-nsplits", hSizeNsplits), ("repart-size", hRepartSize)] ++ Dask.CsvOpts.handlers ++ Dask.SortValuesIO.handlers
+  ("iter-chunks", hIterChunks), ("size-nsplits", hSizeNsplits), ("repart-size", hRepartSize)] ++ Dask.CsvOpts.handlers ++ Dask.MergeAsof.handlers ++ Dask.Align.handlers ++ Dask.MergePlan.handlers ++ Dask.SortValuesIO.handlers
 
 def main : IO Unit := runDriver table
